@@ -27,7 +27,7 @@ REAL_VS_STUB = {'real': ['adb_shell.transport.usb_transport.UsbTransport', 'adb_
 EXPECT_PROBES = {'all': ['c20_session', 'c20_script', 'c20_err_in_read', 'c20_err_in_write', 'c20_err_in_close', 'c20_use_after_close', 'c20_by_serial', 'c20_by_port', 'c20_timeout_none', 'c20_kernel_driver', 'c20_recovery', 'c20_unplugged']}
 OWN = ('recovery-failed', 'usb-error-swallowed', 'wrong-interface', 'wrong-endpoint', 'wrong-length', 'read-too-long', 'bytes-differ', 'timeout-ms', 'bare-usb-error', 'crash', 'after-close', 'close-not-idempotent',
        'wrong-result', 'differs-from-memory', 'hang', 'no-termination', 'wrong-device', 'unexpected-exception', 'timeout-instead-of-result', 'write-lost', 'wire-format')
-ERRS = ['io', 'nodevice', 'timeout', 'pipe', 'overflow', 'busy']
+ERRS = ['io', 'nodevice', 'timeout', 'pipe', 'overflow', 'busy', 'notfound']
 USB_EXC = ('UsbReadFailedError', 'UsbWriteFailedError')
 KMAX = 90
 
@@ -142,6 +142,15 @@ def usb_calls_ok(run, scn, probs, expect_timeouts=None):
     for c in claims:
         if c[1] != want_if:
             probs.append(O.P('wrong-interface', 'claimed interface %d; the ADB interface (0xFF,0x42,1) of the device is %d' % (c[1], want_if)))
+    last_connect_ok = False
+    for c in U.CALLS:
+        if c[0] == 'connect-result':
+            last_connect_ok = bool(c[1])
+        elif c[0] == 'open':
+            last_connect_ok = True       # a connect() is under way: its own transfers (the handshake) count
+        elif c[0] == 'unclaimed-transfer' and last_connect_ok:
+            probs.append(O.P('wrong-interface', '%s on a handle whose interface had not been claimed (a failed claimInterface must end connect())' % c[1]))
+            break
     for c in U.CALLS:
         if c[0] == 'bulkRead' and c[1] != b.in_ep:
             probs.append(O.P('wrong-endpoint', 'bulkRead on endpoint 0x%02x, the IN endpoint of the ADB interface is 0x%02x' % (c[1], b.in_ep)))
@@ -244,8 +253,10 @@ def eval_session(case, tapes, out):
         elif name in ('close', 'release'):
             for r in bad:
                 probs.append(O.P('bare-usb-error' if r['exc'].startswith('USBError') else 'crash', 'libusb %s injected into %s: %s raised %s (%s); close() must swallow it' % (err, name, r['op'], r['exc'], r.get('msg'))))
-        # open / claim: noted, not asserted (must not be a non-USB crash)
+        # open / claim: the connect() that met the error must not report success (which exception it raises is not asserted)
         else:
+            if name == 'claim' and not bad:
+                probs.append(O.P('usb-error-swallowed', 'libusb %s injected into claimInterface: every call, connect() included, returned normally' % err))
             for r in bad:
                 if not (r['exc'].startswith('USBError') or r['exc'] in USB_EXC):
                     probs.append(O.P('crash', 'libusb %s injected into %s: %s raised %s (%s)' % (err, name, r['op'], r['exc'], r.get('msg'))))
